@@ -32,6 +32,7 @@ def liveTable : PrecTable where
   comma := prec_Comma
   powRHS := prec_PowRHS
   highest := prec_highest
+  infExp := inf_exponent
 
 def parseUOp (s : String) : Option UOp := UOp.all.find? (·.name == s)
 def parseBOp (s : String) : Option BOp := BOp.all.find? (·.name == s)
